@@ -554,6 +554,9 @@ func caseKey(c c16sim.Case) string {
 func procKey(pc *c16sim.ProcCase) string {
 	h := sha256.New()
 	fmt.Fprintf(h, "%v|%s|%d|%s|%s|%d", pc.FilesB64, pc.Mode, pc.DashAt, pc.Out, pc.Fault, pc.FaultAt)
+	if len(pc.StdinPipe) > 0 {
+		fmt.Fprintf(h, "|pipe%v", pc.StdinPipe)
+	}
 	return fmt.Sprintf("%x", h.Sum(nil))[:16]
 }
 
